@@ -43,6 +43,25 @@
 
 namespace
 {
+// ---------------------------------------------------------------- read-only view of stream::location_
+// The stored location is private and the only public observer, get_position(), changes the istream
+// flags (it clears eof).  To compare the stored location after EVERY operation without disturbing the
+// history, the member pointer is obtained through an explicit instantiation (access checks do not
+// apply to the arguments of an explicit instantiation).  Only reads go through it.
+template <typename Ch>
+struct loc_tag
+{
+  using type = fcppt::parse::location fcppt::parse::detail::stream<Ch>::*;
+  friend type get_member(loc_tag);
+};
+template <typename Tag, typename Tag::type Member>
+struct rob
+{
+  friend typename Tag::type get_member(Tag) { return Member; }
+};
+template struct rob<loc_tag<char>, &fcppt::parse::detail::stream<char>::location_>;
+template struct rob<loc_tag<wchar_t>, &fcppt::parse::detail::stream<wchar_t>::location_>;
+
 // ---------------------------------------------------------------- failure-injecting stream buffer
 // Unbuffered, seekable; uflow throws once `budget` characters have been delivered (never at the end
 // of the text, where it reports eof).  istream::get turns the exception into badbit.
@@ -112,6 +131,7 @@ struct obs
   int kind;
   unsigned long long a, b, c; // ch: a = code; pos: a = off, b = line, c = col (b = 0: no location)
   unsigned flags;             // eof + 2 fail + 4 bad
+  unsigned long long ll = 0, lc = 0; // stream::location_ after the operation
 };
 
 inline std::uint64_t mix(std::uint64_t const h, std::uint64_t const v) { return (h ^ v) * 1099511628211ULL; }
@@ -123,7 +143,7 @@ inline std::uint64_t mix_obs(std::uint64_t h, obs const &o)
     h = mix(h, o.a);
   else if (o.kind == 4)
     h = mix(mix(mix(h, o.a), o.b), o.c);
-  return mix(h, 16U + o.flags);
+  return mix(mix(mix(h, 16U + o.flags), o.ll), o.lc);
 }
 
 inline std::string flags_str(unsigned const f)
@@ -152,7 +172,7 @@ inline std::string obs_str(char const tag, obs const &o)
   case 6: r += "noslot"; break;
   default: r += "exc:other"; break;
   }
-  return r + flags_str(o.flags);
+  return r + flags_str(o.flags) + "@" + std::to_string(o.ll) + ":" + std::to_string(o.lc);
 }
 
 struct op
@@ -214,6 +234,12 @@ struct kase
            ((s & std::ios_base::badbit) ? 4U : 0U);
   }
 
+  std::string state_str() const
+  {
+    fcppt::parse::location const l{stored_location()};
+    return flags_str(flags()) + "@" + std::to_string(l.line().get()) + ":" + std::to_string(l.column().get());
+  }
+
   static obs pos_obs(position const &_p, unsigned const _flags)
   {
     long long const off = static_cast<long long>(std::streamoff(_p.pos()));
@@ -225,7 +251,21 @@ struct kase
         });
   }
 
-  obs set_to(position const &_p)
+  fcppt::parse::location stored_location() const { return (*st).*get_member(loc_tag<Ch>{}); }
+
+  obs stamp(obs _o) const
+  {
+    fcppt::parse::location const l{stored_location()};
+    _o.ll = l.line().get();
+    _o.lc = l.column().get();
+    return _o;
+  }
+
+  obs set_to(position const &_p) { return stamp(set_to0(_p)); }
+
+  obs step(op const &_o) { return stamp(step0(_o)); }
+
+  obs set_to0(position const &_p)
   {
     try
     {
@@ -242,7 +282,7 @@ struct kase
     }
   }
 
-  obs step(op const &_o)
+  obs step0(op const &_o)
   {
     try
     {
@@ -264,7 +304,7 @@ struct kase
       default:
         if (_o.j >= saved.size())
           return obs{6, 0, 0, 0, flags()};
-        return set_to(position{saved[_o.j]});
+        return set_to0(position{saved[_o.j]});
       }
     }
     catch (fcppt::parse::detail::exception<Ch> const &)
@@ -563,6 +603,53 @@ long long kind_max<char>() { return 255; }
 template <>
 long long kind_max<wchar_t>() { return 1114111; }
 
+}
+
+#include "c12_grammar.cpp"
+
+namespace
+{
+// ---------------------------------------------------------------- positions as values
+// `OFF@L:C` / `OFF@-`
+template <typename Ch>
+bool parse_position(std::string const &s, std::unique_ptr<fcppt::parse::position<Ch>> &out)
+{
+  using position = fcppt::parse::position<Ch>;
+  using pos_type = typename position::pos_type;
+  std::size_t const at = s.find('@');
+  if (at == std::string::npos)
+    return false;
+  unsigned long long off = 0, l = 0, c = 0;
+  if (!parse_nat(s.substr(0, at), off))
+    return false;
+  std::string const rest{s.substr(at + 1)};
+  if (rest == "-")
+  {
+    out = std::make_unique<position>(
+        pos_type(std::streamoff(static_cast<long long>(off))), typename position::optional_location{});
+    return true;
+  }
+  std::size_t const colon = rest.find(':');
+  if (colon == std::string::npos || !parse_nat(rest.substr(0, colon), l) || !parse_nat(rest.substr(colon + 1), c))
+    return false;
+  out = std::make_unique<position>(
+      pos_type(std::streamoff(static_cast<long long>(off))),
+      fcppt::optional::make(fcppt::parse::location{fcppt::parse::line{l}, fcppt::parse::column{c}}));
+  return true;
+}
+
+template <typename Ch>
+std::string narrow_ascii(std::basic_string<Ch> const &s)
+{
+  std::string r;
+  for (Ch const c : s)
+  {
+    unsigned long long const v = unsigned_of<Ch>::code(c);
+    r += v >= 32 && v < 127 ? static_cast<char>(v) : '?';
+  }
+  return r;
+}
+
 // ---------------------------------------------------------------- per character type
 template <typename Ch>
 struct inst
@@ -664,8 +751,103 @@ struct inst
       std::string const r{k.run_parser(t[5], arg, dash)};
       if (r.empty())
         return "bad-op";
-      std::string const f{flags_str(k.flags())};
+      std::string const f{k.state_str()};
       return "r=" + r + f + " " + obs_str('p', k.step(op{1, 0}));
+    }
+    if ((t[0] == "gp" && t.size() == 7) || (t[0] == "gx" && t.size() == 6) || (t[0] == "ge" && t.size() == 8))
+    try
+    {
+      // the last two tokens: skipper, grammar
+      gast sk{}, gr{};
+      if (!parse_gtext(t[t.size() - 2], true, kind_max<Ch>(), sk) ||
+          !parse_gtext(t[t.size() - 1], false, kind_max<Ch>(), gr) || !well_formed(sk) || !well_formed(gr))
+        return "bad-op";
+      if (t[0] == "gp")
+      {
+        if (!parse_list(t[2], kind_max<Ch>(), text) || !parse_fa(t[3], fa) || !parse_ops(t[4], ops))
+          return "bad-op";
+        world<Ch> const w{gr, sk};
+        return grun_str<Ch>(run_traced<Ch>(w, to_text<Ch>(text), fa, ops));
+      }
+      if (t[0] == "gx")
+      {
+        unsigned long long l = 0;
+        if (!parse_nat(t[2], l) || l > 8 || !parse_fa(t[3], fa))
+          return "bad-op";
+        world<Ch> const w{gr, sk};
+        std::basic_string<Ch> s(static_cast<std::size_t>(l), Ch(97));
+        std::uint64_t h = vh::fnv_init;
+        unsigned long long const total = 1ULL << (2U * l);
+        for (unsigned long long code = 0; code < total; ++code)
+        {
+          for (std::size_t q = 0; q < l; ++q)
+            s[q] = static_cast<Ch>(alphabet[(code >> (2U * (l - 1 - q))) & 3U]);
+          // the parse starts after k reads, k = 0 .. l+1 (l+1: one failed read at the end of input)
+          ops.clear();
+          for (unsigned long long k = 0; k <= l + 1; ++k)
+          {
+            h = mix_grun(h, run_traced<Ch>(w, s, fa, ops));
+            ops.push_back(op{0, 0});
+          }
+        }
+        return "D " + vh::hex64(h);
+      }
+      // ge K E TEXT FA NRAW SK GR
+      unsigned long long nraw = 0;
+      if (t[2].size() != 1 || (t[2][0] != 'p' && t[2][0] != 'e' && t[2][0] != 'g') ||
+          !parse_list(t[3], kind_max<Ch>(), text) || !parse_fa(t[4], fa) || !parse_nat(t[5], nraw) || nraw > 1000)
+        return "bad-op";
+      if (t[2][0] == 'e' && t[6] != "eps")
+        return "bad-op";
+      world<Ch> const w{gr, sk};
+      return run_entry<Ch>(w, t[2][0], to_text<Ch>(text), fa, nraw);
+    }
+    catch (std::logic_error const &)
+    {
+      return "exc:chars"; // basic_char_set::chars() is not what the constructor was given: never predicted
+    }
+    if (t[0] == "poseq" && t.size() == 4)
+    {
+      std::unique_ptr<fcppt::parse::position<Ch>> a, b;
+      if (!parse_position<Ch>(t[2], a) || !parse_position<Ch>(t[3], b))
+        return "bad-op";
+      std::string r{"eq="};
+      r += (*a == *b) ? '1' : '0';
+      r += (*b == *a) ? '1' : '0';
+      r += " leq=";
+      if (a->location().has_value() && b->location().has_value())
+        r += (a->location().get_unsafe() == b->location().get_unsafe()) ? '1' : '0';
+      else
+        r += '-';
+      // the same object on both sides
+      r += " self=";
+      r += (*a == *a) ? '1' : '0';
+      return r;
+    }
+    if (t[0] == "posout" && t.size() == 3)
+    {
+      std::unique_ptr<fcppt::parse::position<Ch>> a;
+      if (!parse_position<Ch>(t[2], a))
+        return "bad-op";
+      std::basic_ostringstream<Ch> o1, o2;
+      o1 << *a;
+      std::string r{"out=" + narrow_ascii<Ch>(o1.str())};
+      if (a->location().has_value())
+      {
+        fcppt::parse::location const orig{a->location().get_unsafe()};
+        o2 << orig;
+        r += " loc=" + narrow_ascii<Ch>(o2.str());
+        // the non-const accessors on a copy: ++line, column = 7; the original must not move
+        fcppt::parse::location copy{orig};
+        ++copy.line();
+        copy.column() = fcppt::parse::column{7U};
+        std::basic_ostringstream<Ch> o3, o4;
+        o3 << copy;
+        o4 << orig;
+        r += " mut=" + narrow_ascii<Ch>(o3.str()) + " orig=" + narrow_ascii<Ch>(o4.str());
+        r += (copy == orig) ? " same" : " differ";
+      }
+      return r;
     }
     return "bad-op";
   }
@@ -725,6 +907,42 @@ std::string stateful(inst<Ch> &in, std::vector<std::string> const &t)
             pos_type(std::streamoff(off)),
             fcppt::optional::make(fcppt::parse::location{fcppt::parse::line{l}, fcppt::parse::column{c}})}));
   }
+  if (t[0] == "gpar" && t.size() == 3)
+  {
+    gast sk{}, gr{};
+    if (!parse_gtext(t[1], true, kind_max<Ch>(), sk) || !parse_gtext(t[2], false, kind_max<Ch>(), gr) ||
+        !well_formed(sk) || !well_formed(gr))
+      return "bad-op";
+    std::unique_ptr<world<Ch>> wp;
+    try
+    {
+      wp = std::make_unique<world<Ch>>(gr, sk);
+    }
+    catch (std::logic_error const &)
+    {
+      return "exc:chars";
+    }
+    world<Ch> const &w{*wp};
+    trace_stream<Ch> ts{k};
+    gres res{};
+    try
+    {
+      res = to_gres<Ch>(fcppt::parse::phrase_parse(
+          w.start(), static_cast<fcppt::parse::basic_stream<Ch> &>(ts), w.skipper()));
+    }
+    catch (fcppt::parse::detail::exception<Ch> const &)
+    {
+      res = gres{4, {}};
+    }
+    catch (...)
+    {
+      res = gres{5, {}};
+    }
+    std::string r{"r=" + gres_str(res)};
+    for (ev const &e : ts.log)
+      r += " " + ev_str(e);
+    return r + " |" + k.state_str();
+  }
   if (t.size() == 2)
   {
     std::vector<long long> arg;
@@ -734,7 +952,7 @@ std::string stateful(inst<Ch> &in, std::vector<std::string> const &t)
     std::string const r{k.run_parser(t[0], arg, dash)};
     if (r.empty())
       return "bad-op";
-    return "r=" + r + flags_str(k.flags());
+    return "r=" + r + k.state_str();
   }
   return "bad-op";
 }
@@ -742,7 +960,7 @@ std::string stateful(inst<Ch> &in, std::vector<std::string> const &t)
 bool is_stateful_name(std::string const &s)
 {
   return s == "get" || s == "pos" || s == "set" || s == "setraw" || s == "char" || s == "lit" || s == "cset" ||
-         s == "slit" || s == "scset";
+         s == "slit" || s == "scset" || s == "gpar";
 }
 
 std::string handle(std::vector<std::string> const &t)
@@ -778,7 +996,8 @@ std::string handle(std::vector<std::string> const &t)
     }
     return "bad-op";
   }
-  if (t[0] == "hist" || t[0] == "walk" || t[0] == "exh" || t[0] == "seqs" || t[0] == "perr")
+  if (t[0] == "hist" || t[0] == "walk" || t[0] == "exh" || t[0] == "seqs" || t[0] == "perr" || t[0] == "gp" ||
+      t[0] == "gx" || t[0] == "ge" || t[0] == "poseq" || t[0] == "posout")
   {
     if (t.size() < 2)
       return "bad-op";
@@ -802,6 +1021,8 @@ std::string handle(std::vector<std::string> const &t)
       }
       if (t[0] == "setraw")
         return "no-stream";
+      if (t[0] == "gpar")
+        return t.size() == 3 ? "no-stream" : "bad-op";
       return t.size() == 2 ? "no-stream" : "bad-op";
     }
     return g.kind == 'c' ? stateful(g.c, t) : stateful(g.w, t);
